@@ -130,9 +130,10 @@ class VSeq(V):
     """abstract immutable sequence of unknown length: len is a z3 Int,
     elements are opaque ``name[i]``.  ``lazy`` marks a lazily produced
     sequence with ghost pull accounting (C12)."""
-    __slots__ = ('name', 'length', 'elem', 'kind', 'ghost', 'shape')
+    __slots__ = ('name', 'length', 'elem', 'kind', 'ghost', 'shape', 'elem_fn')
 
-    def __init__(self, name, length, kind='list', ghost=None, shape=None):
+    def __init__(self, name, length, kind='list', ghost=None, shape=None, elem_fn=None):
+        self.elem_fn = elem_fn  # callable(E, k) -> value: a structured element model (contract-supplied), else opaque elem(k)
         self.name = name
         self.length = length
         self.elem = z3.Function('elem_' + name, z3.IntSort(), Val)
